@@ -1,4 +1,6 @@
 """C11 — bump arena contract (mechanism integrity; arithmetic over run-time values declined)."""
+import re
+
 from ..guards import cmp_facts, ne, sh
 from ..mir import parent_fn
 from ..panics import label_names
@@ -337,8 +339,133 @@ def r7_typed_front_ends(ctx):
                 ctx.bad("typed|%s|length" % short, f.where(), "alloc_uninit_slice returns a slice whose length is not `count`")
 
 
+def r8_watermark_arithmetic(ctx):
+    """What the allocator primitives store and hand out, stated as values (linear normal forms, so the spelling is free):
+    alloc_raw returns `bytes` bytes at base + beg and leaves the watermark at beg + bytes; alloc_raw_bump returns end - beg
+    bytes at base + beg and leaves it at end; in-place grow extends by new - old; shrink of the tail block leaves the
+    watermark at offset - old + new, i.e. at the end of the kept part."""
+    from ..linear import lin, show
+    from ..flow import reaching_expr
+
+    def L(fn, operand, block):
+        return lin(ne(reaching_expr(fn, fn.deep(operand), block)))
+
+    def want(fn, c, operand, expected, key, what, consequence):
+        got = L(fn, operand, c.block)
+        if got == expected:
+            ctx.ok(key, fn.where(c.block), "%s = %s" % (what, show(ne(reaching_expr(fn, fn.deep(operand), c.block)))))
+        else:
+            ctx.bad(key, fn.where(c.block), "%s is `%s`, not `%s`: %s" % (what, show(ne(reaching_expr(fn, fn.deep(operand), c.block))), " + ".join("%s%s" % ("" if v == 1 else "-" if v == -1 else str(v) + "*", k) for k, v in sorted(expected[0].items())).replace("+ -", "- ") or str(expected[1]), consequence))
+    n = 0
+    ar = ctx.need(B + "alloc_raw")
+    ctx.touch(ar)
+    # beg: the one opaque (rounded) leaf in the pointer handed out
+    beg = None
+    for c in ar.calls():
+        if (c.callee or "").endswith("slice_from_raw_parts"):
+            pe = ne(ar.deep(c.args[0]))
+            if pe[0] == "call" and pe[1].split("::")[-1] == "add" and len(pe[2]) == 2:
+                beg = pe[2][1]
+            n += 1
+            want(ar, c, c.args[1], ({"bytes": 1}, 0), "arith|alloc_raw|length", "the length of the block alloc_raw hands out", "the caller is told it owns bytes that belong to the padding before the block or to the next block (allocate_zeroed and Vec write through that length)")
+    for c in ar.calls():
+        if (c.callee or "").split("::")[-1] in ("set", "replace") and sh(ne(ar.deep(c.args[0]))) == "self.offset" and beg is not None:
+            n += 1
+            want(ar, c, c.args[1], ({sh(beg): 1, "bytes": 1}, 0), "arith|alloc_raw|watermark", "the watermark after alloc_raw", "the next block overlaps this one or memory is skipped")
+    ab = ctx.need(B + "alloc_raw_bump")
+    ctx.touch(ab)
+    for c in ab.calls():
+        short = (c.callee or "").split("::")[-1]
+        if short == "slice_from_raw_parts":
+            n += 1
+            want(ab, c, c.args[1], ({"end": 1, "beg": -1}, 0), "arith|alloc_raw_bump|length", "the length of the block alloc_raw_bump hands out", "the block's length does not match the range [beg, end) that was reserved for it")
+        if short in ("set", "replace") and sh(ne(ab.deep(c.args[0]))) == "self.offset":
+            n += 1
+            want(ab, c, c.args[1], ({"end": 1}, 0), "arith|alloc_raw_bump|watermark", "the watermark after alloc_raw_bump", "the next block overlaps this one or memory is skipped")
+    g = ctx.need(ALLOC_IMPL + "grow")
+    ctx.touch(g)
+    for c in g.calls_to(B + "alloc_raw"):
+        if len(c.args) > 1:
+            n += 1
+            want(g, c, c.args[1], ({"size(new_layout)": 1, "size(old_layout)": -1}, 0), "arith|grow|in-place-delta", "the number of bytes in-place grow adds", "the grown block is shorter than promised or the watermark moves past it")
+    for c in g.calls():
+        if (c.callee or "").endswith("slice_from_raw_parts"):
+            n += 1
+            want(g, c, c.args[1], ({"size(new_layout)": 1}, 0), "arith|grow|length", "the length of the block grow returns", "the caller is told a different size than it asked for")
+    sk = ctx.need(ALLOC_IMPL + "shrink")
+    ctx.touch(sk)
+    for c in sk.calls():
+        if (c.callee or "").split("::")[-1] in ("set", "replace") and sh(ne(sk.deep(c.args[0]))) == "self.offset":
+            n += 1
+            want(sk, c, c.args[1], ({"get(self.offset)": 1, "size(new_layout)": 1, "size(old_layout)": -1}, 0), "arith|shrink|watermark", "the watermark after shrinking the tail block", "shrinking to more than half puts the watermark inside the kept part (the next allocation overwrites its tail); to less than half it wastes space")
+    ctx.floor("allocator lengths / watermarks compared as values", n, 7)
+
+
+def r9_os_failure_values(ctx):
+    """The OS signals failure of mprotect / munmap / madvise with -1 (and success with 0).  Wherever the status of such a
+    call is tested, the test sends -1 to the error outcome and 0 to the success outcome."""
+    n = 0
+    for fid, fn in sorted(ctx.lib.fns.items()):
+        if not fn.file.startswith("src/sys/"):
+            continue
+        for c in fn.calls():
+            cal = c.callee or ""
+            if not re.match(r"^libc::(\w+::)*(mprotect|munmap|madvise|mlock|msync)$", cal) or c.dest is None:
+                continue
+            r = c.dest["l"]
+            for S in sorted(fn.live):
+                if fn.blocks[S]["t"]["k"] != "switch":
+                    continue
+                si = fn.switch_info(S)
+                if si["kind"] != "bin" or si["op"] not in ("Eq", "Ne", "Lt", "Le", "Gt", "Ge"):
+                    continue
+
+                def is_status(o):
+                    pl = (o.get("move") or o.get("copy")) if isinstance(o, dict) else None
+                    hops = 0
+                    while pl is not None and not pl["p"] and hops < 4:
+                        if pl["l"] == r:
+                            return True
+                        dd = fn.whole_defs(pl["l"])
+                        if len(dd) != 1 or dd[0][1] == "t" or dd[0][2]["rv"]["k"] not in ("use", "cast"):
+                            return False
+                        a = dd[0][2]["rv"]["a"]
+                        pl = (a.get("move") or a.get("copy")) if isinstance(a, dict) else None
+                        hops += 1
+                    return False
+                a, b2 = si["a"], si["b"]
+                if is_status(a) and isinstance(b2, dict) and b2.get("int") is not None:
+                    k, flip = b2["int"], False
+                elif is_status(b2) and isinstance(a, dict) and a.get("int") is not None:
+                    k, flip = a["int"], True
+                else:
+                    continue
+                if k >= 2 ** 31:
+                    k -= 2 ** 32
+                n += 1
+                ctx.touch(fn)
+
+                def holds(v):
+                    x, y = (k, v) if flip else (v, k)
+                    return {"Eq": x == y, "Ne": x != y, "Lt": x < y, "Le": x <= y, "Gt": x > y, "Ge": x >= y}[si["op"]]
+                errs = {bb for bb in fn.live for st in fn.blocks[bb]["s"] if st["rv"]["k"] == "agg" and st["rv"].get("variant") == "Err"}
+                oks = {bb for bb in fn.live for st in fn.blocks[bb]["s"] if st["rv"]["k"] == "agg" and st["rv"].get("variant") == "Ok"}
+                out = {}
+                for v in (-1, 0):
+                    tgt = [j for lab, j in fn.succ[S] if (lab != 0) == holds(v)]
+                    rr = fn.reach(tgt)
+                    out[v] = ("Err" if rr & errs and not rr & oks else "Ok" if rr & oks and not rr & errs else "mixed")
+                key = "os-status|%s|%s" % (parent_fn(fid).split("::")[-1], cal.split("::")[-1])
+                if out[-1] == "Err" and out[0] == "Ok":
+                    ctx.ok(key, fn.where(S), "%s(status, %d): -1 -> Err, 0 -> Ok" % (si["op"], k))
+                else:
+                    ctx.bad(key + "|%s%d" % (si["op"], k), fn.where(S), "the status of %s is tested with %s %d, which sends the failure value -1 to the %s outcome and 0 to the %s outcome: a refused request is treated as done (the arena then hands out memory that was never made accessible)" % (cal.split("::")[-1], si["op"], k, out[-1], out[0]))
+    ctx.floor("tested statuses of memory-management system calls", n, 1)
+
+
 RULES = [("C11-R1", r1_no_out_of_bounds_block), ("C11-R2", r2_who_writes_cursor), ("C11-R3", r3_grow), ("C11-R4", r4_debug_wrapper),
-         ("C11-R5", r5_scoped_reset), ("C11-R6", r6_roundings), ("C11-R7", r7_typed_front_ends)]
+         ("C11-R5", r5_scoped_reset), ("C11-R6", r6_roundings), ("C11-R7", r7_typed_front_ends), ("C11-R8", r8_watermark_arithmetic),
+         ("C11-R9", r9_os_failure_values)]
 
 EXPLANATION = (
     "R1: alloc_raw's fast path returns Ok only under end <= commit and otherwise delegates (beg, end) to alloc_raw_bump, which "
